@@ -1119,7 +1119,7 @@ def run(cfg):
                 cfg.pick('', '; templates %s x bodies with 2 nodes x tuples over U2' % list(LOCAL_TEMPLATES_DEEP))),
             'b': 'all fill plans of arity 2 and 3 with <= %d fill-nothing steps; value tuples: (10 3 2)%s'
                  % (cfg.pick(1, 2), cfg.pick('', ' + 6 rotations of the universe')),
-            'c': 'boom() at every position of every body <= 2 nodes (%s) x %d argument tuples; %d follow-up programs'
+            'c': 'boom() at every position of every body <= 2 nodes (%s) x <= %d argument tuples; %d follow-up programs'
                  % (cfg.pick('bodies <= 1 node at nesting depth 1, 2, 3; bodies with 2 nodes at depth 3 with 1 tuple',
                              'every body at nesting depth 1, 2, 3'),
                     len(cfg.pick(FAULT_TUPLES_Q, FAULT_TUPLES_T)), len(BATTERY)),
